@@ -299,7 +299,7 @@ def run_property(prop: Prop, tier='quick', seed=0, jobs=None) -> int:
     if os.environ.get('VERIF_SERIAL'):
         results = [run_task(s) for s in specs]
     else:
-        results = run_pool(specs, jobs, wall_limit=2700 if tier == 'thorough' else 1800)
+        results = run_pool(specs, jobs, wall_limit=2700 if tier == 'thorough' else 1200)
     known = load_known_findings()
     violations = []
     known_hits = []
